@@ -32,8 +32,8 @@ RunOk(e) ==
   /\ fileErr <=> (o.file_errors > 0)
   /\ o.foreign_lines = 0                                    \* nothing else on the diagnostic stream
   /\ (e.allow => o.warnings = 0)
-  /\ (e.cls = "warn" /\ ~e.allow => o.warnings > 0)        \* warnings alone never prevent generation (see started)
-  /\ (e.dup /\ ~e.allow /\ e.cls # "err_io" => o.warnings > 0)  \* a file listed twice: a warning, and nothing else changes
+  /\ (e.cls \in WarnClasses /\ ~e.allow => o.warnings > 0)        \* warnings alone never prevent generation (see started)
+  /\ (e.dup /\ ~e.allow /\ e.cls \notin {"err_io", "err_io_ext", "err_io_dir"} => o.warnings > 0)  \* a file listed twice: a warning, and nothing else changes
 
 Step == /\ l <= Len(Rec)
         /\ IF Rec[l].ev = "run" /\ RunOk(Rec[l]) THEN TRUE ELSE TLCSet(1, Append(TLCGet(1), l))
